@@ -8,19 +8,26 @@ Variable md : mode.
 
 Definition Inv (s : st) : Prop :=
   closed s = true \/
-  ( dial s = false /\ pw s <> WConn /\
+  ( closed s = false /\
+    (dial s = true -> q s = 0 /\ wadded s = true /\ reg s = true /\ mout s = true /\ owed s = 0 /\ pw s <> WConn) /\
+    (pw s = WConn -> wadded s = true /\ mout s = true /\ owed s = 0 /\ dial s = false) /\
     (0 < q s -> wadded s = true) /\
-    (q s = 0 -> wadded s = false) /\
+    match md with
+    | ETOS => q s = 0 -> wadded s = true -> dial s = true \/ pw s = WConn
+    | _ => reg s = true -> wadded s = true -> mout s = true
+    end /\
     (reg s = true -> 0 < q s ->
        mout s = true /\
        match md with
        | LT => True
        | _ => (room s = 0 -> nospace s = true) /\ (0 < room s -> eout s = true \/ pw s = WOut)
        end) /\
-    (reg s = true -> match md with LT => True | ET => mout s = true | ETOS => armed s = true \/ 0 < owed s end) /\
+    (reg s = true ->
+       match md with LT => True | ET => mout s = true | ETOS => armed s = true \/ 0 < owed s \/ pw s <> WNone end) /\
     (reg s = false -> 0 < q s -> room s = 0 -> nospace s = true) /\
     (md <> ETOS -> owed s = 0) /\
-    (pw s = WOut -> reg s = true) ).
+    (reg s = false -> owed s = 0) /\
+    (pw s <> WNone -> reg s = true) ).
 
 End I.
 
@@ -42,6 +49,7 @@ Ltac split_ifs :=
   repeat match goal with
   | |- context[if ?b then _ else _] => destruct b eqn:?
   | |- context[match ?b with WNone => _ | _ => _ end] => destruct b eqn:?
+  | |- context[match ?b with O => _ | S _ => _ end] => destruct b eqn:?
   end.
 
 Ltac forward :=
@@ -66,10 +74,49 @@ Ltac fin :=
   try discriminate; try congruence; try lia; try tauto;
   try (match goal with H : _ && _ = false |- _ => apply andb_false_iff in H; destruct H end;
        boolprop; try congruence; try lia; try tauto);
-  try (match goal with H : _ \/ _ |- _ => destruct H end; try congruence; try lia; try tauto).
+  try (right; right; discriminate); try (right; discriminate);
+  try (match goal with H : _ \/ _ |- _ => solve [destruct H; try congruence; try lia; try tauto] end);
+  try (match goal with H : ?x <> WNone -> _ |- _ => destruct x eqn:?; try congruence; try tauto;
+         try solve [exfalso; assert (HH : WConn <> WNone) by discriminate; specialize (H HH); congruence] end);
+  try solve [intuition (try congruence; try lia; try discriminate)].
 
 Ltac unfold_all :=
-  unfold step, flush, wtail, modWrite, resetRead, rearm, pmod, kadd, kctl, ksend, kpeer, deliverable_out, is_et, is_os,
+  unfold step, flush, release, wtail, modWrite, resetRead, rearm, pmod, kadd, kctl, ksend, kpeer, deliverable_out, is_et, is_os,
          set_q, set_wadded, set_pw, set_owed, set_dial.
 
 Ltac simp_proj := cbn [q wadded closed dial room nospace reg mout armed eout pw owed sent fst snd].
+
+Ltac simp_proj_all := cbn [q wadded closed dial room nospace reg mout armed eout pw owed sent fst snd] in *.
+
+Lemma flush_closed md s : closed s = true -> flush md s = s.
+Proof. intros H. unfold flush. now rewrite H. Qed.
+Lemma resetRead_closed md s : closed s = true -> resetRead md s = s.
+Proof. intros H. unfold resetRead. now rewrite H. Qed.
+
+(* a closed connection stays closed *)
+Lemma closed_stays md s a : closed s = true -> closed (step md s a) = true.
+Proof.
+  intros H. destruct a; cbn [step]; rewrite ?H; cbn [orb andb negb]; auto.
+  - destruct (pw s); auto. rewrite flush_closed; unfold release, set_pw, set_owed; destruct (is_os md); simp_proj; auto.
+  - destruct (pw s); auto. unfold release, set_pw, set_owed. destruct (is_os md); simp_proj;
+      match goal with |- context[if ?b then _ else _] => destruct b end; try rewrite resetRead_closed; simp_proj; auto.
+  - unfold rearm, set_owed. destruct (owed s); auto. destruct md; simp_proj; rewrite ?H; auto.
+Qed.
+
+Ltac start :=
+  intros [Hc | (Hc & HA & HB & H1 & H5 & H2 & H3 & H4 & H6 & H8 & H7)];
+  [ left; apply closed_stays; exact Hc | ].
+
+Ltac pre_rw :=
+  repeat match goal with
+  | H : ?x = true |- context[?x] => rewrite H
+  | H : ?x = false |- context[?x] => rewrite H
+  | H : ?x = WNone |- context[?x] => rewrite H
+  | H : ?x = WOut |- context[?x] => rewrite H
+  | H : ?x = WConn |- context[?x] => rewrite H
+  end.
+
+Ltac go :=
+  unfold_all; simp_proj; pre_rw; cbn [orb andb negb]; split_ifs; simp_proj_all; boolprop;
+  try (left; reflexivity);
+  right; simp_proj; (repeat split; intros; fin).
